@@ -211,6 +211,11 @@ async fn run_srv(tok: &[&str]) -> String {
             if task.is_finished() {
                 break;
             }
+            if let Some(n) = step.strip_prefix('W') {
+                // the transport accepts n reply writes and fails the next one
+                handle.fail_write_after(n.parse().unwrap());
+                continue;
+            }
             if let Some(cmd) = step.strip_prefix('!') {
                 if cmd == "s" {
                     let _ = cmd_tx.send(ServerCommand::Shutdown).await;
